@@ -456,6 +456,17 @@ func compare(c *h.Check, strict bool, hist []Op) { compareN(c, strict, hist, len
 // closing sequence: the whole of it runs through Apply step by step, with every observation
 // after every step; the replay sessions and their splits are run on its own part only.
 func compareN(c *h.Check, strict bool, hist []Op, own int) {
+	// Inside a controlled execution, so that a goroutine the code under test starts for the
+	// lifetime of a bus belongs to that execution: left free it would still be there when
+	// the scheduled scenarios start, which the scheduler refuses.
+	res := vrt.Run(vrt.Config{Horizon: 200_000_000}, func() { compareBody(c, strict, hist, own); vrt.Join() })
+	if res.Status != vrt.StatusOK {
+		c.Violate("execution-"+res.Status.String(), fmt.Sprintf("strict=%v execution %s: %s", strict, res.Status, res.Msg),
+			histString(hist)+"\n"+res.Msg, replayCase{Strict: strict, Hist: hist})
+	}
+}
+
+func compareBody(c *h.Check, strict bool, hist []Op, own int) {
 	rc := replayCase{Strict: strict, Hist: hist}
 	n := len(hist)
 	last := hist[n-1]
